@@ -870,6 +870,23 @@ func (e *Engine) evalSpecCall(x *SExpr, env *SpecEnv) Value {
 			return VTerm{T: mkApp(args[0].Val, SBool, ts...), Typ: boolT}
 		}
 		return VTerm{T: mkApp(args[0].Val, SInt, ts...), Typ: intT}
+	case "nwr":
+		// nwr(w): number of Write calls made on the writer w so far
+		v := term(e.evalSpec(args[0], env))
+		return VTerm{T: env.st.getMem("nwr:"+v.String(), mkApp("nwr0", SInt, v)), Typ: intT}
+	case "wlen":
+		vs := evalArgs()
+		return VTerm{T: mkApp("wlog_len", SInt, term(vs[0]), term(vs[1])), Typ: intT}
+	case "wbyte":
+		// wbyte(w, i, j): byte j of the slice handed to the i-th Write on w
+		vs := evalArgs()
+		return VTerm{T: mkSelect(mkApp("wlog_arr", arraySort(SInt, SInt), term(vs[0]), term(vs[1])), term(vs[2])), Typ: intT}
+	case "wjson":
+		// wjson(w, i, x): the i-th Write on w delivered exactly json.Marshal(x)
+		vs := evalArgs()
+		x := term(vs[2])
+		tag := sortTag(x.Sort)
+		return VTerm{T: mkAnd(mkEq(mkApp("wlog_len", SInt, term(vs[0]), term(vs[1])), mkApp("jsonenc_len_"+tag, SInt, x)), mkEq(mkApp("wlog_arr", arraySort(SInt, SInt), term(vs[0]), term(vs[1])), mkApp("jsonenc_arr_"+tag, arraySort(SInt, SInt), x))), Typ: boolT}
 	case "gcnt":
 		// gcnt(x, "name"): ghost counter of calls of a certain kind made on object x (see attr counts)
 		if len(args) != 2 || args[1].Kind != "str" {
